@@ -115,6 +115,16 @@ def run_exclude(ctx, case, verbose=False):
         hcl_inspect_err = (ierr or iout).strip()[-300:]
         irc, iout, ierr = ctx.atlas_run(iargs + ["--format", "{{ sql . }}"], d)
     drc, dout, derr = ctx.atlas_run(dargs, d)
+    # the other orders of `schema diff`: the file first and the database second, and file to file (cur.hcl renders the current state)
+    vlib.write_files(d, {"cur.hcl": L.hcl(case["cur"])})
+    pre = dargs[:dargs.index("--from")]
+    post = dargs[dargs.index("--to") + 2:]
+    more = {"hcl-to-db": pre + ["--from", dargs[dargs.index("--to") + 1], "--to", dargs[dargs.index("--from") + 1]] + post,
+            "hcl-to-hcl": pre + ["--from", "file://want.hcl", "--to", "file://cur.hcl"] + post}
+    more_out = {}
+    for name, a in sorted(more.items()):
+        more_out[name] = ctx.atlas_run(a, d)
+        env_guard(more_out[name][1], more_out[name][2])
     if vlib.dump_db(db) != before:
         raise RuntimeError("schema inspect / schema diff changed the database")
     rc, out, err = ctx.atlas_run(args, d)
@@ -179,6 +189,17 @@ def run_exclude(ctx, case, verbose=False):
             hit = L.targets(s_) & bad0
             if hit:
                 v.add("cli|excl|diff|excluded-object-in-plan", "schema diff statement names excluded %s: %s" % (sorted(hit), s_[:300]))
+                break
+    for name, (mrc, mout, merr) in sorted(more_out.items()):
+        if mrc == 124:
+            continue
+        if mrc != 0:
+            v.add("cli|excl|diff-%s|error" % name, "schema diff (%s) failed rc=%d: %s" % (name, mrc, (merr or mout)[-400:]))
+            continue
+        for s_ in L.statements(mout):
+            hit = L.targets(s_) & bad0
+            if hit:
+                v.add("cli|excl|diff-%s|excluded-object-in-plan" % name, "schema diff (%s) statement names excluded %s: %s" % (name, sorted(hit), s_[:300]))
                 break
     if rc != 0:
         if sub and case["fate"].startswith("fkcol") and 'unknown column "secret" in foreign key definition' in (err + out) and after == before:
